@@ -157,7 +157,11 @@ func pipelineRun(t *testing.T, p StatParams) StatResult {
 		deadline := time.Now().Add(20 * time.Second)
 		for rig.Disp.VerifProcessedAlerts() < uint64(puts.Load()) {
 			if time.Now().After(deadline) {
-				t.Fatalf("dispatcher did not process %d alerts (processed %d)", puts.Load(), rig.Disp.VerifProcessedAlerts())
+				// published but never processed: lost alerts (a defect, reported as update-lost), not a harness failure
+				res.Lost = int(puts.Load()) - int(rig.Disp.VerifProcessedAlerts())
+				res.First = fmt.Sprintf("round %d: %d alerts published, %d processed 20 s later", round, puts.Load(), rig.Disp.VerifProcessedAlerts())
+				res.Rounds, res.Updates, res.Millis = round+1, int(puts.Load()), time.Since(t0).Milliseconds()
+				return res
 			}
 			runtime.Gosched()
 		}
